@@ -28,6 +28,7 @@ Inductive rexpr :=
 | RCall (f : rexpr) (args : list rexpr)        (* f ( args ) *)
 | RThenCall (o : rexpr) (arg : rexpr)          (* ( { let __handler = o ; __handler } ( arg ) ) *)
 | RClosure (x : string) (body : rexpr)         (* | x | body *)
+| RClosureMove (x : string) (body : rexpr)     (* move | x | body : the wrapper closure of the async spawn variants *)
 | RClosureIgn (body : rexpr)                   (* | _ | body *)
 | RMoveThunk (body : rexpr)                    (* move | | body *)
 | RNot (e : rexpr)
